@@ -269,6 +269,9 @@ class FlowConfigParser(configparser.ConfigParser):
         args = kwargs.copy()
         if 'strict' not in args:
             args['strict'] = False
+        if 'interpolation' not in args:
+            # VV: values are always read raw; without this a value containing a bare '%' can be read but not written
+            args['interpolation'] = None
         super(FlowConfigParser, self).__init__(defaults, dict_type, allow_no_value=allow_no_value, **args)
 
     def get(self, section, option, raw=True, vars=None):
